@@ -48,7 +48,8 @@ LOCALE = utf8_locale()
 TIMEOUT = 150
 
 # known findings: how a ThreadSanitizer report is attributed (precise predicates, see known-findings.d/C17.json)
-F_KIDOK, F_WSFACETS, F_LAZYCM, F_CASEI = "F17-1", "F17-2", "F17-3", "F17-4"
+F_KIDOK, F_WSFACETS, F_LAZYCM, F_CASEI, F_DESER, F_VALREGEX = "F17-1", "F17-2", "F17-3", "F17-4", "F17-5", "F17-6"
+POOLBITS = 0x2 | 0x80 | 0x200 | 0x4000 | 0x8000
 
 
 def inventory(ctx, audit_text):
@@ -148,11 +149,20 @@ def attribute(rep, cfg):
             return F_WSFACETS
         if not g and tops and any(tops) and all("TraverseSchema::getElementAttValue" in t for t in tops if t):
             return F_WSFACETS
-        shared_plain_pool = (cfg[2] & 2) and (cfg[2] & 64)
-        if shared_plain_pool and any(("ComplexTypeInfo::getContentModel" in f or "ComplexTypeInfo::makeContentModel" in f or
-                                      "DTDElementDecl::getContentModel" in f or "DTDElementDecl::makeContentModel" in f)
-                                     for f in fr):
-            return F_LAZYCM
+        pool_run = bool(cfg[2] & POOLBITS)
+        if pool_run and (cfg[2] & 64) and any(("ComplexTypeInfo::getContentModel" in f or "ComplexTypeInfo::makeContentModel" in f)
+                                               for f in fr):
+            return F_LAZYCM     # schema content models: only when the pool was preloaded without validation + full checking
+        if pool_run and any(("DTDElementDecl::getContentModel" in f or "DTDElementDecl::makeContentModel" in f or
+                             "getFormattedContentModel" in f or "formatContentModel" in f) for f in fr):
+            return F_LAZYCM     # DTD content models and the cached content-model text are built lazily in any pooled grammar
+        if (cfg[2] & 0x20000) and any(("RangeToken::" in f or "RangeTokenMap::" in f or "RangeTokenElemMap::" in f) for f in fr):
+            return F_CASEI      # the workload that asks for the complements Initialize does not pre-build
+        if any(("RangeToken::createMap" in f or "RangeToken::doCreateMap" in f or "RangeToken::match" in f) for f in fr) and \
+           any("DatatypeValidator" in f or "AbstractStringValidator" in f for f in fr):
+            return F_VALREGEX   # pattern facet of a shared datatype validator: range bitmaps built on first match
+    if (cfg[2] & 0x10000) and rep["kind"].startswith("crash"):
+        return F_DESER
     return None
 
 
@@ -167,7 +177,7 @@ def gen_configs(ctx):
     nruns = 30 if quick else 1500
     #  bit0 private parsers, bit1 shared locked pool, bit2 DOM, bit3 regex, bit4 transcode, bit5 create/destroy,
     #  bit7 shared locked pool + per-thread schemas via schemaLocation + URI growth, bit8 heavy local-code-page transcoding
-    masks = [0xFBD, 0xFBF, 0x82, 0x01, 0x04, 0x808, 0x110, 0x20, 0x600, 0x14, 0x221, 0x03, 0x80, 0x100, 0xE00, 0x3D]
+    masks = [0xCFBD, 0xEFBF, 0x82, 0x01, 0x04, 0x20808, 0x110, 0x20, 0x600, 0x4014, 0x221, 0x03, 0x6080, 0x100, 0xCE00, 0x3D]
     cfgs = []
     for k in range(nruns):
         n = (2, 4, 8, 16)[k % 4]
@@ -186,7 +196,10 @@ def targeted_configs(ctx, rounds=1):
         out += [(rng.randrange(1, 10 ** 9), 16, 0x80, 1, 3), (rng.randrange(1, 10 ** 9), 8, 0x80, 2, 4),
                 (rng.randrange(1, 10 ** 9), 16, 0x100, 1, 3), (rng.randrange(1, 10 ** 9), 8, 0x100, 0, 4),
                 (rng.randrange(1, 10 ** 9), 16, 0x200, 1, 3), (rng.randrange(1, 10 ** 9), 16, 0x400, 1, 2),
-                (rng.randrange(1, 10 ** 9), 16, 0x800, 1, 2), (rng.randrange(1, 10 ** 9), 8, 0x800, 2, 3)]
+                (rng.randrange(1, 10 ** 9), 16, 0x800, 1, 2), (rng.randrange(1, 10 ** 9), 8, 0x800, 2, 3),
+                (rng.randrange(1, 10 ** 9), 8, 0x6000, 1, 3), (rng.randrange(1, 10 ** 9), 16, 0x4000, 1, 2),
+                (rng.randrange(1, 10 ** 9), 8, 0xE000, 2, 3), (rng.randrange(1, 10 ** 9), 8, 0xC200, 1, 3),
+                (rng.randrange(1, 10 ** 9), 8, 0x20000, 1, 2), (rng.randrange(1, 10 ** 9), 16, 0x20800, 2, 2)]
         if rounds > 1:
             out += [(rng.randrange(1, 10 ** 9), 16, 0x04, 1, 6), (rng.randrange(1, 10 ** 9), 16, 0x182, 2, 6),
                     (rng.randrange(1, 10 ** 9), 16, 0x3F, 1, 6), (rng.randrange(1, 10 ** 9), 4, 0x180, 1, 8)]
@@ -197,7 +210,7 @@ def looks_bad(job, out):
     """cheap pre-scan used by the refuter: does this run already contain something the decision below will report?"""
     fid, cfg = job
     seq, conc = out
-    if cfg[2] & 0x1000:
+    if cfg[2] & 0x11000:
         return False
     if conc["timeout"] or "DONE" not in conc["out"] or seq["rc"] != 0:
         return True
@@ -205,9 +218,36 @@ def looks_bad(job, out):
         return True
     if pool_changed(seq["out"]) or pool_changed(conc["out"]):
         return True
+    if pool_lines(seq["out"], cfg, lambda f: True)[0] or pool_lines(conc["out"], cfg, lambda f: True)[0]:
+        return True
     a = [ln for ln in seq["out"].splitlines() if ln.startswith("T ")]
     b = [ln for ln in conc["out"].splitlines() if ln.startswith("T ")]
     return a != b
+
+
+def pool_lines(out, cfg, known):
+    """the harness' observations of the locked pool / the token map -> list of (tag, text) violations, list of finding ids"""
+    bad, fids = [], []
+    for ln in out.splitlines():
+        if ln.startswith("POOLMEM "):
+            kv = dict(x.split("=") for x in ln.split() if "=" in x)
+            if int(kv.get("other", 0)) > 0:
+                bad.append(("pool-allocated-while-locked", ln))
+            if int(kv.get("xsdcm", 0)) > 0:
+                if (cfg[2] & 64) and known(F_LAZYCM):
+                    fids.append(F_LAZYCM)
+                else:
+                    bad.append(("pool-allocated-while-locked", ln))
+            if int(kv.get("dtdcm", 0)) > 0 or int(kv.get("fmt", 0)) > 0:
+                if known(F_LAZYCM):
+                    fids.append(F_LAZYCM)
+                else:
+                    bad.append(("pool-allocated-while-locked", ln))
+        elif ln.startswith("XSMODEL ") and ("nonnull=0" in ln or "same=0" in ln or "changed=1" in ln):
+            bad.append(("xsmodel-changed-while-locked", ln))
+        elif ln.startswith("RANGEMAP ") and ("CHANGED" in ln or "BAD" in ln):
+            bad.append(("rangemap-corrupted", ln))
+    return bad, fids
 
 
 def pool_changed(out):
@@ -223,7 +263,8 @@ def witness_configs(ctx):
         (F_KIDOK, [(1001 + i, 8, 0x04, 1, 2) for i in range(3)]),               # DOM only: first isKidOK calls collide
         (F_WSFACETS, [(2001 + i, 16, 0x01, 1, 3) for i in range(6)]),           # private schema parsers: first traversal
         (F_LAZYCM, [(3001 + i, (8, 16)[i % 2], 0x42, 1 + i % 2, 3) for i in range(6)]),
-        (F_CASEI, [(4001 + i, 4, 0x1800, 1, 1) for i in range(1)]),             # option i on shared range tokens              # shared pool, plain preload
+        (F_CASEI, [(4001 + i, 4, 0x1800, 1, 1) for i in range(1)]),             # option i on shared range tokens
+        (F_DESER, [(5001, 2, 0x16000, 0, 1)]),                                  # pool serialised while LOCKED, then de-serialised              # shared pool, plain preload
     ]
 
 
@@ -290,13 +331,17 @@ def run(ctx):
         if not req:
             ctx.note("replay file carries no request (an obligation/translator failure): re-running the whole check")
             todo = [(None, c) for c in gen_configs(ctx)]
+            ntarget = 0
         else:
             cfg = tuple(int(x) for x in req.split())
             todo = [(None, cfg)] * 6          # schedules vary: repeat the recorded configuration
+        ntarget = 0
         wit = []
     else:
         wit = witness_configs(ctx)
-        todo = [(None, c) for c in targeted_configs(ctx) + gen_configs(ctx)]
+        tcs = targeted_configs(ctx)
+        ntarget = len(tcs)
+        todo = [(None, c) for c in tcs + gen_configs(ctx)]
     def work(job):
         fid, cfg = job
         seq = run_one(xh, "seq", cfg)
@@ -308,7 +353,8 @@ def run(ctx):
         return seq, conc
     # time budget: the quick tier must stay below 3 minutes even on a loaded machine, so the generated configurations
     # are a seed-determined sequence of which a prefix is run (at least 8); the number run is in the evidence
-    deadline = ctx.t0 + (80 if ctx.tier == "quick" else 1500)
+    explore_t0 = time.time()
+    deadline = explore_t0 + (50 if ctx.tier == "quick" else 1500)
     jobs, outs = [], []
     with concurrent.futures.ThreadPoolExecutor(max_workers=4) as ex:
         for fid, cfgs in wit:                     # witnesses: stop a group as soon as its finding reproduced
@@ -323,7 +369,7 @@ def run(ctx):
                 if any(attribute(rp, c) == fid for rp in parse_reports(o[1]["err"])):
                     break
         k = 0
-        while k < len(todo) and (k < 8 or time.time() < deadline):
+        while k < len(todo) and ((k < ntarget and time.time() < explore_t0 + 110) or time.time() < deadline):
             chunk = todo[k:k + 4]
             outs += list(ex.map(work, chunk))
             jobs += chunk
@@ -362,6 +408,9 @@ def run(ctx):
             # the unrestrained regex mode can crash or hang the process, even the single-threaded reference run
             seen_findings.setdefault(F_CASEI, []).append((req, ("crash-or-hang", "sequential" if "DONE" not in seq["out"] else "concurrent")))
             continue
+        if (cfg[2] & 0x10000) and ctx.find_known(F_DESER) and ("DONE" not in seq["out"] or "DONE" not in conc["out"]):
+            seen_findings.setdefault(F_DESER, []).append((req, ("crash", "sequential" if "DONE" not in seq["out"] else "concurrent")))
+            continue
         if seq["rc"] != 0 or "DONE" not in seq["out"]:
             reps = parse_reports(seq["err"])
             viol += 1
@@ -370,6 +419,19 @@ def run(ctx):
                                                         "rc": seq["rc"], "stderr": seq["err"][-3000:], "reports": len(reps)})
             continue
         for which, r_ in (("sequential", seq), ("concurrent", conc)):
+            pbad, pfids = pool_lines(r_["out"], cfg, ctx.find_known)
+            for f in pfids:
+                seen_findings.setdefault(f, []).append((req, ("pool-memory", which)))
+            for tag, text in pbad:
+                viol += 1
+                if viol <= 8:
+                    ctx.violation(tag, {"request": req, "run": which, "what": {
+                        "pool-allocated-while-locked": "a LOCKED grammar pool allocated through its memory manager (outside the "
+                                                       "synchronised URI pool): it is not read-only",
+                        "xsmodel-changed-while-locked": "getXSModel() of a LOCKED pool returned null / another object / 'changed'",
+                        "rangemap-corrupted": "RangeTokenMap: a positive slot denotes another set than before the workload, or a "
+                                              "complement slot is not the complement of its positive slot"}[tag],
+                                        "line": text, "stderr": r_["err"][-2500:] if tag == "pool-allocated-while-locked" else ""})
             if pool_changed(r_["out"]):
                 viol += 1
                 if viol <= 6:
@@ -444,6 +506,10 @@ def run(ctx):
                       "regex-PRIVATE case-insensitive twin inside the shared token (option i on \\s \\w \\d \\i \\c, block escapes, "
                       "\\P{..}), unsynchronised and freed with that regex (data race, then use-after-free/crash in other "
                       "threads); four complement tokens (ALL, ASSIGNED, IsAlnum, IsAlpha) are created on first use",
+             F_DESER: "a grammar pool serialised while LOCKED cannot be de-serialised: deserializeGrammars reads fLocked=true before "
+                      "the synchronised URI pool exists and XTemplateSerializer::loadObject dereferences the null pool (SIGSEGV)",
+             F_VALREGEX: "the RegularExpression of a pattern facet in a shared DatatypeValidator (built-in registry, pooled grammars) "
+                         "builds the bitmaps of its range tokens lazily on first match (RangeToken::createMap), unsynchronised",
              F_LAZYCM: "a locked, shared XMLGrammarPool is not read-only: ComplexTypeInfo::getContentModel builds "
                        "fContentModel lazily inside the shared grammar when the grammar was cached without "
                        "validation+full schema checking (data race between parsers sharing the pool)"}
@@ -452,7 +518,7 @@ def run(ctx):
         static_ids.add(F_KIDOK)
     if any(o == "TraverseSchema::getElementAttValue" for o, _ in racy_static):
         static_ids.add(F_WSFACETS)
-    for fid in (F_KIDOK, F_WSFACETS, F_LAZYCM, F_CASEI):
+    for fid in (F_KIDOK, F_WSFACETS, F_LAZYCM, F_CASEI, F_DESER, F_VALREGEX):
         hits = seen_findings.get(fid, [])
         if not hits and fid not in static_ids:
             continue
